@@ -303,7 +303,7 @@ def _run(ctx, rng, kind, **kw):
         from vf import sched as S
         hooks = S.LineHooks()
         hooks.install([_c.find_curve.__code__] + S.codes_of(_k.VerifyingKey, {"from_der", "from_pem", "from_string"}) + S.codes_of(_k.SigningKey, {"from_der", "from_pem"})
-                      + S.codes_of(der, {"unpem", "remove_object", "remove_sequence"}), None)
+                      + S.codes_of(der, {"unpem", "remove_object", "remove_sequence", "oid_to_str"}), None)
         try:
             names = [c.name for c in lib.ALL_CURVES if c.order.bit_length() <= 256]
             blobs = {}
@@ -312,17 +312,35 @@ def _run(ctx, rng, kind, **kw):
                 sk = ecdsa.SigningKey.from_secret_exponent(rng.randrange(1, c.order), c)
                 blobs[nm] = [("vk.from_der", sk.verifying_key.to_der(), sk.verifying_key.to_string()), ("sk.from_der", sk.to_der(), sk.to_string()),
                              ("sk.from_der", sk.to_der(format="pkcs8"), sk.to_string()), ("vk.from_pem", sk.verifying_key.to_pem(), sk.verifying_key.to_string())]
+            # malformed keys whose refusal involves process-wide interpreter state (decimal formatting of a 2 kB OID arc): refused
+            # with the documented exception whatever the other threads are doing
+            giant = R.enc_tlv(0x06, b"\x2a" + b"\xff" * 2100 + b"\x7f")
+            giant2 = R.enc_tlv(0x06, b"\x2b\x81\x04\x00" + b"\x8f" * 2300 + b"\x01")
+            good_pt = bytes(ecdsa.SigningKey.from_secret_exponent(7, lib.BY_NAME["NIST192p"]).verifying_key.to_string("uncompressed"))
+            bad_blobs = [("vk.from_der_refused", R.enc_seq(R.enc_seq(R.enc_oid(R.OID_EC_PUBLIC_KEY), g), R.enc_bitstring(good_pt, 0)), None) for g in (giant, giant2)]
+            bad_blobs.append(("vk.from_der_refused", R.enc_seq(R.enc_seq(giant, R.enc_oid((1, 2, 840, 10045, 3, 1, 1))), R.enc_bitstring(good_pt, 0)), None))
             for run_i in range(kw["runs"]):
                 nthreads = rng.choice((2, 2, 3))
                 same = rng.random() < 0.7
                 nm0 = rng.choice(names[3:])
                 jobs = [rng.choice(blobs[nm0 if same else rng.choice(names)]) for _ in range(nthreads)]
+                if run_i % 4 == 1:
+                    jobs = [rng.choice(bad_blobs) for _ in range(nthreads)]
+                elif run_i % 4 == 3:
+                    jobs[0] = rng.choice(bad_blobs)
                 results = {}
                 s = S.Sched(S.random_decider(rng, rng.choice((0.1, 0.3, 0.6))), max_steps=50000)
 
                 def body(i, job):
                     def f():
                         kindj, blob, want = job
+                        if kindj == "vk.from_der_refused":
+                            try:
+                                ecdsa.VerifyingKey.from_der(blob)
+                                results[i] = False
+                            except (der.UnexpectedDER, UnknownCurveError, MalformedPointError):
+                                results[i] = True
+                            return
                         obj = {"vk.from_der": ecdsa.VerifyingKey.from_der, "sk.from_der": ecdsa.SigningKey.from_der, "vk.from_pem": ecdsa.VerifyingKey.from_pem}[kindj](blob)
                         results[i] = obj.to_string() == want
                     return f
@@ -344,6 +362,39 @@ def _run(ctx, rng, kind, **kw):
                     ctx.count("watchdog_inconclusive")
         finally:
             hooks.uninstall()
+        # and systematically over the few functions that keep state beyond a call (module containers, process-wide interpreter settings):
+        # every placement of up to two preemptions for pairs of decodes, refused keys included
+        from ecdsa import ecdsa as _e, ellipticcurve as _ec, numbertheory as _nt, _compat as _cp
+        st_codes = S.stateful_codes(_c, _k, der, util, _e, _ec, _cp)
+        ctx.count("stateful_functions_in_decoders", len(st_codes))
+
+        def _valid(fn, blob, want):
+            return lambda: bytes(fn(blob).to_string()) == want
+
+        def _refused(blob):
+            def f():
+                try:
+                    ecdsa.VerifyingKey.from_der(blob)
+                    return False
+                except (der.UnexpectedDER, UnknownCurveError, MalformedPointError):
+                    return True
+            return f
+        sj = [("vk.from_der_refused", _refused(b_[1]), (), True) for b_ in bad_blobs]
+        for nm in names[:4]:
+            kj, blob, want = blobs[nm][0]
+            sj.append(("vk.from_der", _valid(ecdsa.VerifyingKey.from_der, bytes(blob), bytes(want)), (), True))
+        S.first_use_systematic(ctx, lambda M: st_codes, lambda M: sj, rng, 4 if kw["runs"] < 1000 else 40, cls="stateful_systematic", fresh=False, bound=1, max_positions=150)
+        # the writers among them (module globals assigned, process-wide settings changed): every placement of TWO preemptions, refused pairs first
+        wr_codes = S.stateful_codes(_c, _k, der, util, _e, _ec, _cp, writers_only=True)
+        ctx.count("state_writing_functions_in_decoders", len(wr_codes))
+        if wr_codes:
+            order = [(0, 1), (1, 0), (2, 2), (0, 0), (3, 0), (0, 3)]
+            st_i = {"i": 0}
+
+            def pick(jobs, r):
+                st_i["i"] += 1
+                return order[(st_i["i"] - 1) % len(order)]
+            S.first_use_systematic(ctx, lambda M: wr_codes, lambda M: sj, rng, len(order), cls="stateful_systematic", fresh=False, bound=2, limit=600, max_positions=60, pick=pick)
     elif kind == "first_use":
         # the same, but every run starts on a fresh private instance of the package: the first key ever decoded by it is decoded by
         # 2-3 threads at once (lookup tables built on first use)
@@ -396,6 +447,15 @@ def _run(ctx, rng, kind, **kw):
                 (nm, "str_lone_surrogate", pem.decode().replace("M", "\udc80", 1)), (nm, "str_lone_surrogate_outside", pem.decode() + "\udcff\n"),
                 (nm, "str_astral", pem.decode().replace("M", "\U0001f511", 1)), (nm, "str_nul", pem.decode().replace("M", "\x00", 1)),
             ]
+            # RFC 1421 style headers of encrypted (and not encrypted) traditional PEM files, complete and damaged
+            hdr_full = b"Proc-Type: 4,ENCRYPTED\nDEK-Info: AES-128-CBC,0123456789ABCDEF0123456789ABCDEF\n\n"
+            for hn, hdr in (("encrypted", hdr_full), ("encrypted_no_dek", b"Proc-Type: 4,ENCRYPTED\n\n"), ("encrypted_dek_misspelt", hdr_full.replace(b"DEK-Info", b"DEK-info")),
+                            ("encrypted_dek_empty", b"Proc-Type: 4,ENCRYPTED\nDEK-Info:\n\n"), ("encrypted_dek_no_comma", b"Proc-Type: 4,ENCRYPTED\nDEK-Info: AES-128-CBC\n\n"),
+                            ("proc_type_only", b"Proc-Type: 4,ENCRYPTED"), ("proc_type_clear", b"Proc-Type: 4,MIC-CLEAR\n\n"), ("proc_type_no_value", b"Proc-Type:\n\n"),
+                            ("dek_only", b"DEK-Info: DES-EDE3-CBC,FFFFFFFFFFFFFFFF\n\n"), ("header_colon_only", b":\n\n"), ("header_no_blank_line", hdr_full.strip() + b"\n")):
+                cases.append((nm, "pemhdr_" + hn, lines[0] + b"\n" + hdr + body + b"\n" + lines[-2] + b"\n"))
+                cases.append((nm, "pemhdr_" + hn + "_cut", (lines[0] + b"\n" + hdr)[: len(lines[0]) + 1 + max(1, len(hdr) // 2)]))
+                cases.append((nm, "pemhdr_" + hn + "_str", (lines[0] + b"\n" + hdr + body + b"\n" + lines[-2] + b"\n").decode()))
             if nm == "priv":
                 cases.append((nm, "with_ec_parameters", R.pem(R.enc_oid(tuple(curve.oid)), "EC PARAMETERS") + pem))
                 cases.append((nm, "only_ec_parameters", R.pem(R.enc_oid(tuple(curve.oid)), "EC PARAMETERS")))
